@@ -4,7 +4,7 @@ import json
 META = {
     "level": "model_checking",
     "technique": "TLA+ transcription of ClosestBucketsIter/ClosestIter model-checked against sort-by-distance for every target in every reachable table (canary: bucket 0 visited twice); closest_keys/closest output of the real KBucketsTable for all small tables x all targets evaluated by TLC against the relation 'every stored key once, non-decreasing distance', plus closest() calls inside random operation histories",
-    "text": "TLC checks ClosestOK (bucket walk + per-bucket sort = global sort by XOR distance, for every target incl. the local key and stored keys) in every reachable state of the KBucket model and rejects the bucket-0-twice canary. The real closest_keys and closest are run on every table over 3-bit keys (all subsets, all targets, several local keys; thorough: 4-bit keys with up to 4 entries) under three embeddings into 256-bit keys (bottom bits, top bits, random scattered bits) and TLC evaluates the relation on every record; random insert/update/remove/tick histories with interleaved closest() calls (pending entries, mixed statuses) are validated against the trace spec.",
+    "text": "TLC checks ClosestOK (bucket walk + per-bucket sort = global sort by XOR distance, for every target incl. the local key and stored keys) in every reachable state of the KBucket model and rejects the bucket-0-twice canary. The real closest_keys and closest are run on every table over 3-bit keys (all subsets, all targets, several local keys; thorough: 4-bit keys with up to 4 entries) under three embeddings into 256-bit keys (bottom bits, top bits, random scattered bits) and TLC evaluates the relation on every record; sampled tables over 6-bit keys with bucket size 64 whose farthest bucket holds 21-32 keys (more than the default bucket size K_VALUE = 20) are evaluated the same way; random insert/update/remove/tick histories with interleaved closest() calls (pending entries, mixed statuses) are validated against the trace spec.",
     "note": "Abstract b-bit keys (b<=4) embedded order-preservingly into 256-bit keys; the bottom embedding is the one that populates the real bucket 0.",
     "design_ref": "6/C38",
 }
@@ -32,7 +32,7 @@ def run(c):
     if c.quick:
         c.drive(drv, ["kbucket", "closest", 3, 7, c.seed, recs, "locals=2"])
     else:
-        c.drive(drv, ["kbucket", "closest", 4, 4, c.seed, recs])
+        c.drive(drv, ["kbucket", "closest", 4, 4, c.seed, recs, "big=150"])
     n, bad = c.tlc_relation("RelKadClosest", recs, timeout=3000)
     c.evaluations += n
     for line in open(recs):
